@@ -352,7 +352,8 @@ class VCF(Harness):
 
     def _content(self, skel, x):
         nl = [13, 10] if skel["crlf"] else [10]
-        out = list(VCF_HEADER.replace("\n", "\r\n").encode()) if skel["crlf"] else list(VCF_HEADER.encode())
+        header = VCF_HEADER.replace("\tFORMAT\tS1\tS2", "") if skel.get("no_samples") else VCF_HEADER      # a sites-only VCF: INFO is the last column
+        out = list(header.replace("\n", "\r\n").encode()) if skel["crlf"] else list(header.encode())
         g = lambda nm: x[nm]
         for r, rec in enumerate(skel["recs"]):
             f = []
@@ -364,12 +365,19 @@ class VCF(Harness):
             f.append([ord(".")])
             f.append([g(f"v{r}_f{j}") for j in range(2)])
             dp = list(b"DP=") + [g(f"v{r}_d{j}") for j in range(rec["dpw"])]
-            pre = {"dp": b"", "dp_fl": b"", "fl_dp": b"FL;", "fla_dp": b"FLA;", "flx_dp": b"FLX=7;", "xdp_dp": b"XDP=9;", "fla_fl_dp": b"FLA;FL;"}[rec["info"]]
+            pre = {"dp": b"", "only_x": b"", "dp_fl": b"", "fl_dp": b"FL;", "fla_dp": b"FLA;", "flx_dp": b"FLX=7;", "xdp_dp": b"XDP=9;", "fla_fl_dp": b"FLA;FL;"}[rec["info"]]
             af = []
             if rec.get("af"):
                 ip, fp = rec["af"]
                 af = list(b";AF=") + [g(f"v{r}_af{j}") for j in range(ip)] + ([46] + [g(f"v{r}_af{ip + j}") for j in range(fp)] if fp else [])
-            f.append(list(pre) + dp + (list(b";FL") if rec["info"] == "dp_fl" else []) + af)
+            if rec["info"] == "only_x":          # an INFO column that holds just one short undeclared token: no DP, no flag
+                f.append([ord("X")])
+            else:
+                f.append(list(pre) + dp + (list(b";FL") if rec["info"] == "dp_fl" else []) + af)
+            if skel.get("no_samples"):
+                for k, cell in enumerate(f):
+                    out += cell + ([9] if k < len(f) - 1 else nl)
+                continue
             f.append(list(rec["fmt"].encode()))
             for si, sm in enumerate(rec["samples"]):
                 cell = [g(f"v{r}_g{si}_{k}") for k in range(3)]
@@ -423,7 +431,7 @@ class VCF(Harness):
             exp["ref"].append([g(f"v{r}_r{j}") for j in range(rec["ref"])])
             exp["alt"].append([g(f"v{r}_a{j}") for j in range(rec["alt"])])
             exp["filter"].append([g(f"v{r}_f{j}") for j in range(2)])
-            exp["dp"].append(I([g(f"v{r}_d{j}") for j in range(rec["dpw"])]))
+            exp["dp"].append(I([g(f"v{r}_d{j}") for j in range(rec["dpw"])]) if rec["info"] != "only_x" else 0)     # an absent Integer key reads as 0
             exp["fl"].append(rec["info"] in ("fl_dp", "dp_fl", "fla_fl_dp"))
             exp["gt"].append([[g(f"v{r}_g{si}_{k}") for k in range(3)] for si in range(len(rec["samples"]))])
         if skel.get("select") is not None:
